@@ -1870,3 +1870,633 @@ Proof.
   refine (forallb_impl _ _ _ _ _ Hall). intros kv Hkv. apply andb_true_iff in Hkv. destruct Hkv as [H1 H2].
   rewrite (wf_ns_t_wf_ns _ H1). cbn [andb]. destruct (fst kv); [exact H2|reflexivity].
 Qed.
+
+(* ================================================================================================================= *)
+(* Part 2: resolution (Impl/SchemaResolve.v) of the schema that comes back                                            *)
+(* ================================================================================================================= *)
+Import Cedar.Impl.SchemaResolve.   (* [sep], [mem] ...: shadowed by later imports above *)
+(* norm_text on what the resolver reads: every type name becomes a TypeRef; the empty bare namespace goes *)
+Fixpoint nrm (t : sty) : sty :=
+  match t with
+  | TyString => TyRef (s_of "String")
+  | TyLong => TyRef (s_of "Long")
+  | TyBool => TyRef (s_of "Bool")
+  | TyExt n => TyRef n
+  | TyEnt r => TyRef r
+  | TyRef r => TyRef r
+  | TySet e => TySet (nrm e)
+  | TyRec fs => TyRec ((fix go (l : list (str * (sty * bool))) : list (str * (sty * bool)) :=
+                          match l with [] => [] | x :: r => (fst x, (nrm (fst (snd x)), snd (snd x))) :: go r end) fs)
+  end.
+Definition nrm_fields (fs : list (str * (sty * bool))) : list (str * (sty * bool)) :=
+  map (fun x => (fst x, (nrm (fst (snd x)), snd (snd x)))) fs.
+Lemma nrm_rec : forall fs, nrm (TyRec fs) = TyRec (nrm_fields fs).
+Proof. reflexivity. Qed.
+
+Definition nrm_entity (e : s_entity) : s_entity :=
+  {| se_name := se_name e; se_parents := se_parents e; se_shape := option_map nrm_fields (se_shape e); se_tags := option_map nrm (se_tags e) |}.
+Definition nrm_applies (ap : s_applies) : s_applies :=
+  {| sa_principals := sa_principals ap; sa_resources := sa_resources ap; sa_context := option_map nrm (sa_context ap) |}.
+Definition nrm_action (a : s_action) : s_action :=
+  {| sac_name := sac_name a; sac_parents := sac_parents a; sac_applies := option_map nrm_applies (sac_applies a) |}.
+Definition nrm_common (c : str * sty) : str * sty := (fst c, nrm (snd c)).
+Definition nrm_ns (ns : s_ns) : s_ns :=
+  {| sn_name := sn_name ns; sn_entities := map nrm_entity (sn_entities ns); sn_enums := sn_enums ns;
+     sn_commons := map nrm_common (sn_commons ns); sn_actions := map nrm_action (sn_actions ns) |}.
+Definition nrm_s (S : s_schema) : s_schema := map nrm_ns (filter s_keep S).
+
+Definition erase_fields (fs : xrec) : list (str * (sty * bool)) :=
+  map (fun x : str * xattr => (fst x, (erase_ty (fst (fst (snd x))), snd (fst (snd x))))) fs.
+Lemma erase_ty_rec : forall fs, erase_ty (XRec fs) = TyRec (erase_fields fs).
+Proof.
+  intros fs. cbn [erase_ty]. f_equal. induction fs as [|[key [[ty opt] an]] fs IH]; [reflexivity|].
+  cbn [erase_fields map fst snd]. rewrite IH. reflexivity.
+Qed.
+Lemma erase_rec_fields : forall fs, erase_rec fs = erase_fields fs.
+Proof. intros fs. unfold erase_rec. rewrite erase_ty_rec. reflexivity. Qed.
+
+Lemma erase_norm_ty : forall t, erase_ty (norm_ty t) = nrm (erase_ty t).
+Proof.
+  induction t as [| | |n|e IHe|fs IHfs|r|r] using xty_ind'; try reflexivity.
+  - cbn [norm_ty erase_ty nrm]. rewrite IHe. reflexivity.
+  - rewrite norm_ty_rec, !erase_ty_rec, nrm_rec. f_equal. unfold erase_fields, nrm_fields, mapv. rewrite !map_map.
+    apply map_ext_in. intros kv Hkv. rewrite Forall_forall in IHfs. specialize (IHfs kv Hkv). cbn [fst snd norm_attr]. rewrite IHfs. reflexivity.
+Qed.
+
+Lemma erase_norm_text : forall s, erase (norm_text s) = nrm_s (erase s).
+Proof.
+  intros s. unfold erase, norm_text, nrm_s. rewrite sj_filter_map.
+  assert (Hf : filter (fun x => s_keep (erase_ns x)) s = filter ns_keep s).
+  { apply filter_ext. intros [name n]. unfold s_keep, ns_keep, has_decls, erase_ns. cbn [fst snd sn_name sn_entities sn_enums sn_commons sn_actions].
+    rewrite !is_nil_map. reflexivity. }
+  rewrite Hf. unfold mapv. rewrite !map_map. apply map_ext. intros [name n].
+  unfold erase_ns, nrm_ns, norm_ns_t. cbn [fst snd sn_name sn_entities sn_enums sn_commons sn_actions xs_annots xs_entities xs_enums xs_commons xs_actions].
+  f_equal; unfold mapv; rewrite !map_map; apply map_ext; intros [key v]; cbn [fst snd].
+  - unfold nrm_entity, norm_entity_t. cbn [se_name se_parents se_shape se_tags xe_annots xe_parents xe_shape xe_tags]. f_equal.
+    + destruct (xe_shape v) as [fs|]; [|reflexivity]. cbn [option_map]. f_equal. rewrite !erase_rec_fields.
+      pose proof (erase_norm_ty (XRec fs)) as H. rewrite norm_ty_rec, !erase_ty_rec, nrm_rec in H. injection H as H1. exact H1.
+    + destruct (xe_tags v) as [t|]; [|reflexivity]. cbn [option_map]. rewrite erase_norm_ty. reflexivity.
+  - unfold nrm_common, norm_common_t. cbn [fst snd xc_type]. rewrite erase_norm_ty. reflexivity.
+  - unfold nrm_action, norm_action_t. cbn [sac_name sac_parents sac_applies xac_annots xac_parents xac_applies]. f_equal.
+    destruct (xac_applies v) as [ap|]; [|reflexivity]. cbn [option_map]. f_equal.
+    unfold nrm_applies, norm_applies_t. cbn [sa_principals sa_resources sa_context xa_principals xa_resources xa_context]. f_equal.
+    destruct (xa_context ap) as [t|]; [|reflexivity]. cbn [option_map]. rewrite erase_norm_ty. reflexivity.
+Qed.
+
+(* ---- registration and the shadowing check only look at names ---- *)
+Lemma existsb_nrm : forall (Q : s_ns -> bool) S,
+  (forall ns, Q (nrm_ns ns) = Q ns) -> (forall ns, s_keep ns = false -> Q ns = false) -> existsb Q (nrm_s S) = existsb Q S.
+Proof.
+  intros Q S H1 H2. unfold nrm_s. induction S as [|ns S IH]; [reflexivity|]. cbn [filter existsb].
+  destruct (s_keep ns) eqn:E; [cbn [map existsb]; rewrite H1, IH; reflexivity | rewrite IH, (H2 ns E); reflexivity].
+Qed.
+Lemma flat_map_nrm : forall (B : Type) (F : s_ns -> list B) (h : B -> B) S,
+  (forall ns, F (nrm_ns ns) = map h (F ns)) -> (forall ns, s_keep ns = false -> F ns = []) -> flat_map F (nrm_s S) = map h (flat_map F S).
+Proof.
+  intros B F h S H1 H2. unfold nrm_s. induction S as [|ns S IH]; [reflexivity|]. cbn [filter flat_map]. rewrite map_app.
+  destruct (s_keep ns) eqn:E; [cbn [map flat_map]; rewrite H1, IH; reflexivity | rewrite IH, (H2 ns E); reflexivity].
+Qed.
+Lemma flat_map_nrm_id : forall (B : Type) (F : s_ns -> list B) S,
+  (forall ns, F (nrm_ns ns) = F ns) -> (forall ns, s_keep ns = false -> F ns = []) -> flat_map F (nrm_s S) = flat_map F S.
+Proof.
+  intros B F S H1 H2. rewrite (flat_map_nrm B F (fun x => x) S); [apply map_id| |exact H2]. intros ns. rewrite map_id. apply H1.
+Qed.
+
+Definition nrm_dc (c : str * (str * sty)) : str * (str * sty) := (fst c, (fst (snd c), nrm (snd (snd c)))).
+Definition nrm_d (d : decls) : decls := {| d_ents := d_ents d; d_enums := d_enums d; d_commons := map nrm_dc (d_commons d) |}.
+
+Lemma names_nrm_entities : forall l, map se_name (map nrm_entity l) = map se_name l.
+Proof. intros l. rewrite map_map. reflexivity. Qed.
+Lemma names_nrm_commons : forall l, map fst (map nrm_common l) = map fst l.
+Proof. intros l. rewrite map_map. reflexivity. Qed.
+Lemma names_nrm_actions : forall l, map sac_name (map nrm_action l) = map sac_name l.
+Proof. intros l. rewrite map_map. reflexivity. Qed.
+
+Lemma register_nrm : forall S, register (nrm_s S) = option_map nrm_d (register S).
+Proof.
+  intros S. unfold register.
+  rewrite (existsb_nrm (fun ns => existsb (fun e => mem (se_name e) (sn_enums ns)) (sn_entities ns))).
+  2:{ intros ns. cbn [nrm_ns sn_entities sn_enums]. rewrite existsb_map. reflexivity. }
+  2:{ intros ns E. destruct (s_keep_false ns E) as (_ & -> & _). reflexivity. }
+  destruct (existsb _ S); [reflexivity|]. cbn [option_map]. unfold nrm_d. cbn [d_ents d_enums d_commons]. f_equal. f_equal.
+  - apply flat_map_nrm_id.
+    + intros ns. cbn [nrm_ns sn_entities sn_name]. rewrite map_map. reflexivity.
+    + intros ns E. destruct (s_keep_false ns E) as (_ & -> & _). reflexivity.
+  - apply flat_map_nrm_id; [reflexivity|]. intros ns E. destruct (s_keep_false ns E) as (_ & _ & -> & _). reflexivity.
+  - apply flat_map_nrm.
+    + intros ns. cbn [nrm_ns sn_commons sn_name]. rewrite !map_map. reflexivity.
+    + intros ns E. destruct (s_keep_false ns E) as (_ & _ & _ & -> & _). reflexivity.
+Qed.
+
+Lemma shadowing_nrm : forall S, shadowing_ok (nrm_s S) = shadowing_ok S.
+Proof.
+  intros S. unfold shadowing_ok. rewrite !flat_map_filter, !existsb_filter. f_equal.
+  assert (H1 : flat_map (fun x => if is_nil_str (sn_name x) then map se_name (sn_entities x) ++ sn_enums x ++ map fst (sn_commons x) else []) (nrm_s S)
+             = flat_map (fun x => if is_nil_str (sn_name x) then map se_name (sn_entities x) ++ sn_enums x ++ map fst (sn_commons x) else []) S).
+  { apply flat_map_nrm_id.
+    - intros ns. cbn [nrm_ns sn_entities sn_name sn_enums sn_commons]. rewrite names_nrm_entities, names_nrm_commons. reflexivity.
+    - intros ns E. destruct (s_keep_false ns E) as (_ & -> & -> & -> & _). destruct (is_nil_str (sn_name ns)); reflexivity. }
+  assert (H2 : flat_map (fun x => if is_nil_str (sn_name x) then map sac_name (sn_actions x) else []) (nrm_s S)
+             = flat_map (fun x => if is_nil_str (sn_name x) then map sac_name (sn_actions x) else []) S).
+  { apply flat_map_nrm_id.
+    - intros ns. cbn [nrm_ns sn_actions sn_name]. rewrite names_nrm_actions. reflexivity.
+    - intros ns E. destruct (s_keep_false ns E) as (_ & _ & _ & _ & ->). destruct (is_nil_str (sn_name ns)); reflexivity. }
+  rewrite H1, H2. apply existsb_nrm.
+  - intros ns. cbn [nrm_ns sn_entities sn_name sn_enums sn_commons sn_actions].
+    rewrite names_nrm_entities, names_nrm_commons. rewrite (existsb_map _ nrm_action). reflexivity.
+  - intros ns E. destruct (s_keep_false ns E) as (-> & _). reflexivity.
+Qed.
+
+(* ---- the declarations: same names, normalised bodies ---- *)
+Lemma assoc_map_snd : forall (A B : Type) (h : A -> B) x (l : list (str * A)),
+  assoc x (map (fun c => (fst c, h (snd c))) l) = option_map h (assoc x l).
+Proof.
+  intros A B h x l. induction l as [|[k v] l IH]; [reflexivity|]. cbn [map assoc fst snd]. destruct (str_eqb k x); [reflexivity|exact IH].
+Qed.
+
+Definition nrm_cb (c : str * sty) : str * sty := (fst c, nrm (snd c)).
+Lemma common_nrm : forall d p, common (nrm_d d) p = option_map nrm_cb (common d p).
+Proof.
+  intros d p. unfold common, nrm_d. cbn [d_commons]. rewrite <- map_rev.
+  exact (assoc_map_snd _ _ nrm_cb p (rev (d_commons d))).
+Qed.
+
+Definition has_common (d : decls) (p : str) : bool := match common d p with Some _ => true | None => false end.
+Lemma has_common_nrm : forall d p, has_common (nrm_d d) p = has_common d p.
+Proof. intros d p. unfold has_common. rewrite common_nrm. destruct (common d p); reflexivity. Qed.
+
+Lemma type_ref_path_nrm : forall d ns r, type_ref_path (nrm_d d) ns r = type_ref_path d ns r.
+Proof.
+  intros d ns r. unfold type_ref_path. destruct (has_sep r); [reflexivity|]. destruct ns as [|c ns]; [reflexivity|].
+  rewrite common_nrm. destruct (common d ((c :: ns) ++ sep ++ r)); reflexivity.
+Qed.
+
+(* ---- the hypothesis: in scope, the names that become references still mean what they meant ---- *)
+(* r, read as a type reference in namespace ns, is neither a common type nor an entity type: it falls through to the builtins *)
+Definition free (d : decls) (ns r : str) : bool :=
+  (is_nil_str ns || (negb (has_common d (ns ++ sep ++ r)) && negb (is_entity d (ns ++ sep ++ r))))
+  && negb (has_common d r) && negb (is_entity d r).
+Definition is_ext (n : str) : bool := existsb (fun e => str_eqb (s_of e) n) ["ipaddr"; "decimal"; "datetime"; "duration"]%string.
+(* an EntityTypeRef r means the same as the TypeRef r: no common type captures it, it is not a __cedar:: path nor a builtin name *)
+Definition ent_ok (d : decls) (ns r : str) : bool :=
+  if has_sep r then match strip_prefix cedar_prefix r with None => true | Some _ => false end && negb (has_common d r)
+  else (is_nil_str ns || negb (has_common d (ns ++ sep ++ r))) && negb (has_common d r)
+       && match builtin r with None => true | Some _ => false end.
+Fixpoint ok_ty (d : decls) (ns : str) (t : sty) : bool :=
+  match t with
+  | TyString => free d ns (s_of "String")
+  | TyLong => free d ns (s_of "Long")
+  | TyBool => free d ns (s_of "Bool")
+  | TyExt n => is_ext n && free d ns n
+  | TySet e => ok_ty d ns e
+  | TyRec fs => (fix go (l : list (str * (sty * bool))) : bool := match l with [] => true | x :: r => ok_ty d ns (fst (snd x)) && go r end) fs
+  | TyEnt r => ent_ok d ns r
+  | TyRef _ => true
+  end.
+Lemma ok_ty_rec : forall d ns fs, ok_ty d ns (TyRec fs) = forallb (fun x => ok_ty d ns (fst (snd x))) fs.
+Proof. reflexivity. Qed.
+
+Definition commons_ok (d : decls) : Prop := forall p cns ct, common d p = Some (cns, ct) -> ok_ty d cns ct = true.
+
+Lemma ref_builtin : forall f d ns r b, free d ns r = true -> has_sep r = false -> builtin r = Some b ->
+  resolve_type (S f) (nrm_d d) ns (TyRef r) = ROk b.
+Proof.
+  intros f d ns r b Hfree Hsep Hb. unfold free in Hfree. apply andb_true_iff in Hfree. destruct Hfree as [Hfree He].
+  apply andb_true_iff in Hfree. destruct Hfree as [Hq Hc]. apply negb_true_iff in He, Hc.
+  cbn [resolve_type]. rewrite Hsep, !common_nrm.
+  unfold has_common in Hc. destruct (common d r) eqn:Ec; [discriminate|]. cbn [option_map].
+  change (is_entity (nrm_d d)) with (is_entity d). rewrite He, Hb.
+  destruct (is_nil_str ns) eqn:En; cbn [negb andb orb] in *; [reflexivity|].
+  apply andb_true_iff in Hq. destruct Hq as [Hq1 Hq2]. apply negb_true_iff in Hq1, Hq2. unfold has_common in Hq1.
+  destruct (common d (ns ++ sep ++ r)) eqn:Eq; [discriminate|]. cbn [option_map]. rewrite Hq2. reflexivity.
+Qed.
+
+Lemma is_ext_inv : forall n, is_ext n = true -> has_sep n = false /\ builtin n = Some (RExt n).
+Proof.
+  intros n H. unfold is_ext in H. cbn [existsb] in H.
+  repeat (apply orb_true_iff in H; destruct H as [H|H]); try discriminate; apply str_eqb_eq in H; subst n; split; reflexivity.
+Qed.
+
+Lemma fields_nrm : forall (rec rec' : sty -> rres rty) fs,
+  (forall x, In x fs -> rec' (nrm (fst (snd x))) = rec (fst (snd x))) ->
+  resolve_fields rec' (nrm_fields fs) = resolve_fields rec fs.
+Proof.
+  intros rec rec' fs H. induction fs as [|[k [x opt]] fs IH]; [reflexivity|].
+  cbn [nrm_fields map resolve_fields fst snd]. fold (nrm_fields fs).
+  pose proof (H (k, (x, opt)) (or_introl eq_refl)) as Hx. cbn [fst snd] in Hx. rewrite Hx.
+  rewrite IH; [reflexivity|]. intros y Hy. apply H. right. exact Hy.
+Qed.
+
+Lemma rt_nrm : forall fuel d ns t, commons_ok d -> ok_ty d ns t = true ->
+  resolve_type fuel (nrm_d d) ns (nrm t) = resolve_type fuel d ns t.
+Proof.
+  induction fuel as [|f IH]; intros d ns t Hc Hok; [reflexivity|].
+  destruct t as [| | |n|e|fs|r|r].
+  - apply ref_builtin; [exact Hok|reflexivity|reflexivity].
+  - apply ref_builtin; [exact Hok|reflexivity|reflexivity].
+  - apply ref_builtin; [exact Hok|reflexivity|reflexivity].
+  - cbn [ok_ty] in Hok. apply andb_true_iff in Hok. destruct Hok as [He Hfr]. destruct (is_ext_inv n He) as [Hs Hb].
+    cbn [nrm]. rewrite (ref_builtin f d ns n (RExt n) Hfr Hs Hb). reflexivity.
+  - cbn [nrm resolve_type ok_ty] in *. rewrite (IH d ns e Hc Hok). reflexivity.
+  - rewrite nrm_rec, !resolve_type_rec. rewrite ok_ty_rec in Hok. rewrite forallb_forall in Hok.
+    rewrite (fields_nrm (resolve_type f d ns) (resolve_type f (nrm_d d) ns) fs); [reflexivity|].
+    intros x Hx. apply IH; [exact Hc|apply Hok; exact Hx].
+  - cbn [nrm ok_ty] in *. unfold ent_ok in Hok. cbn [resolve_type]. unfold resolve_entity_ref.
+    destruct (has_sep r) eqn:Hs.
+    + apply andb_true_iff in Hok. destruct Hok as [Hp Hcm]. apply negb_true_iff in Hcm. unfold has_common in Hcm.
+      destruct (strip_prefix cedar_prefix r); [discriminate|]. rewrite common_nrm. destruct (common d r); [discriminate|]. cbn [option_map].
+      change (is_entity (nrm_d d)) with (is_entity d). destruct (is_entity d r); reflexivity.
+    + apply andb_true_iff in Hok. destruct Hok as [Hok Hb]. apply andb_true_iff in Hok. destruct Hok as [Hq Hcm].
+      apply negb_true_iff in Hcm. unfold has_common in Hcm. rewrite !common_nrm. destruct (common d r); [discriminate|]. cbn [option_map].
+      change (is_entity (nrm_d d)) with (is_entity d). destruct (builtin r); [discriminate|].
+      destruct (is_nil_str ns) eqn:En; cbn [negb andb orb] in *.
+      * destruct ns; [|discriminate]. cbn [qualify]. destruct (is_entity d r); reflexivity.
+      * apply negb_true_iff in Hq. unfold has_common in Hq. destruct (common d (ns ++ sep ++ r)); [discriminate|]. cbn [option_map].
+        destruct ns as [|c ns]; [discriminate|]. cbn [qualify]. destruct (is_entity d ((c :: ns) ++ sep ++ r)); [reflexivity|].
+        destruct (is_entity d r); reflexivity.
+  - cbn [nrm resolve_type]. change (is_entity (nrm_d d)) with (is_entity d). rewrite !common_nrm.
+    destruct (has_sep r).
+    + destruct (strip_prefix cedar_prefix r); [reflexivity|]. destruct (common d r) as [[cns ct]|] eqn:E; cbn [option_map nrm_cb fst snd]; [|reflexivity].
+      apply IH; [exact Hc|exact (Hc _ _ _ E)].
+    + destruct (is_nil_str ns).
+      * destruct (common d r) as [[cns ct]|] eqn:E; cbn [option_map nrm_cb fst snd negb andb]; [|reflexivity]. apply IH; [exact Hc|exact (Hc _ _ _ E)].
+      * destruct (common d (ns ++ sep ++ r)) as [[cns ct]|] eqn:E; cbn [option_map nrm_cb fst snd]; [apply IH; [exact Hc|exact (Hc _ _ _ E)]|].
+        destruct (negb false && is_entity d (ns ++ sep ++ r)); [reflexivity|].
+        destruct (common d r) as [[cns ct]|] eqn:E2; cbn [option_map nrm_cb fst snd]; [|reflexivity]. apply IH; [exact Hc|exact (Hc _ _ _ E2)].
+Qed.
+
+(* ---- sizes and fuel ---- *)
+Lemma sty_size_nrm : forall t, sty_size (nrm t) = sty_size t.
+Proof.
+  induction t as [| | |n|e IHe|fs IHfs|r|r] using sty_ind'; try reflexivity.
+  - cbn [nrm sty_size]. rewrite IHe. reflexivity.
+  - rewrite nrm_rec, !sty_size_rec. f_equal. induction IHfs as [|[k [x opt]] fs Hx _ IH]; [reflexivity|].
+    cbn [nrm_fields map fields_size fst snd] in *. fold (nrm_fields fs). rewrite Hx, IH. reflexivity.
+Qed.
+
+Lemma resolve_fuel_nrm : forall d t, resolve_fuel (nrm_d d) (nrm t) = resolve_fuel d t.
+Proof.
+  intros d t. unfold resolve_fuel, nrm_d. cbn [d_commons]. rewrite sty_size_nrm, map_length. f_equal. f_equal. f_equal.
+  induction (d_commons d) as [|c l IH]; [reflexivity|]. cbn [map fold_right nrm_dc snd]. rewrite sty_size_nrm, IH. reflexivity.
+Qed.
+
+(* ---- the dependency graph of the cycle check ---- *)
+Definition nocommon (d : decls) (ns r : str) : bool :=
+  (is_nil_str ns || negb (has_common d (ns ++ sep ++ r))) && negb (has_common d r).
+
+Lemma nocommon_path : forall d ns r, nocommon d ns r = true -> has_common d (type_ref_path d ns r) = false.
+Proof.
+  intros d ns r H. unfold nocommon in H. apply andb_true_iff in H. destruct H as [Hq Hr]. apply negb_true_iff in Hr.
+  unfold type_ref_path. destruct (has_sep r); [exact Hr|]. destruct ns as [|c ns]; [exact Hr|]. cbn [is_nil_str orb] in Hq.
+  apply negb_true_iff in Hq. unfold has_common in Hq. destruct (common d ((c :: ns) ++ sep ++ r)); [discriminate|exact Hr].
+Qed.
+Lemma free_nocommon : forall d ns r, free d ns r = true -> nocommon d ns r = true.
+Proof.
+  intros d ns r H. unfold free in H. unfold nocommon. apply andb_true_iff in H. destruct H as [H _]. apply andb_true_iff in H. destruct H as [Hq Hr].
+  rewrite Hr, andb_true_r. destruct (is_nil_str ns); [reflexivity|]. cbn [orb] in *. apply andb_true_iff in Hq. tauto.
+Qed.
+Lemma ent_ok_nocommon : forall d ns r, ent_ok d ns r = true -> has_common d (type_ref_path d ns r) = false.
+Proof.
+  intros d ns r H. unfold ent_ok in H. unfold type_ref_path. destruct (has_sep r) eqn:E.
+  - apply andb_true_iff in H. destruct H as [_ H]. apply negb_true_iff in H. exact H.
+  - apply andb_true_iff in H. destruct H as [H _]. fold (nocommon d ns r) in H. pose proof (nocommon_path d ns r H) as Hp.
+    unfold type_ref_path in Hp. rewrite E in Hp. exact Hp.
+Qed.
+
+Lemma refs_nrm : forall d ns t, ok_ty d ns t = true ->
+  filter (has_common d) (map (type_ref_path d ns) (collect_refs (nrm t))) = filter (has_common d) (map (type_ref_path d ns) (collect_refs t)).
+Proof.
+  intros d ns. induction t as [| | |n|e IHe|fs IHfs|r|r] using sty_ind'; intros Hok; cbn [nrm collect_refs map filter ok_ty] in *; try reflexivity.
+  - rewrite (nocommon_path _ _ _ (free_nocommon _ _ _ Hok)). reflexivity.
+  - rewrite (nocommon_path _ _ _ (free_nocommon _ _ _ Hok)). reflexivity.
+  - rewrite (nocommon_path _ _ _ (free_nocommon _ _ _ Hok)). reflexivity.
+  - apply andb_true_iff in Hok. destruct Hok as [_ Hok]. rewrite (nocommon_path _ _ _ (free_nocommon _ _ _ Hok)). reflexivity.
+  - exact (IHe Hok).
+  - change (filter (has_common d) (map (type_ref_path d ns) (collect_refs (nrm (TyRec fs))))
+            = filter (has_common d) (map (type_ref_path d ns) (collect_refs (TyRec fs)))).
+    rewrite nrm_rec, !collect_refs_rec. change (forallb (fun x => ok_ty d ns (fst (snd x))) fs = true) in Hok.
+    induction IHfs as [|[k [x opt]] fs Hx _ IH]; [reflexivity|].
+    cbn [forallb] in Hok. apply andb_true_iff in Hok. destruct Hok as [Hok1 Hok2].
+    cbn [nrm_fields map fields_refs fst snd] in *. fold (nrm_fields fs). rewrite !map_app, !filter_app, (Hx Hok1), (IH Hok2). reflexivity.
+  - rewrite (ent_ok_nocommon _ _ _ Hok). reflexivity.
+Qed.
+
+Lemma deps_nrm : forall d name, commons_ok d -> deps_of (nrm_d d) name = deps_of d name.
+Proof.
+  intros d name Hc. unfold deps_of. rewrite common_nrm. destruct (common d name) as [[ns body]|] eqn:E; cbn [option_map nrm_cb fst snd]; [|reflexivity].
+  rewrite (filter_ext _ (has_common d)).
+  2:{ intros p. rewrite common_nrm. unfold has_common. destruct (common d p); reflexivity. }
+  rewrite (map_ext _ (type_ref_path d ns)) by (intros r; apply type_ref_path_nrm).
+  rewrite (refs_nrm d ns body (Hc _ _ _ E)). apply filter_ext. intros p. reflexivity.
+Qed.
+
+Lemma common_names_nrm : forall d, common_names (nrm_d d) = common_names d.
+Proof. intros d. unfold common_names, nrm_d. cbn [d_commons]. rewrite map_map. reflexivity. Qed.
+
+Lemma kahn_nrm : forall fuel d deg queue visited, commons_ok d -> kahn fuel (nrm_d d) deg queue visited = kahn fuel d deg queue visited.
+Proof.
+  induction fuel as [|f IH]; intros d deg queue visited Hc; [reflexivity|]. cbn [kahn]. destruct queue as [|node q]; [reflexivity|].
+  rewrite (deps_nrm d node Hc). destruct (dec_all (deps_of d node) deg q). apply IH. exact Hc.
+Qed.
+
+Lemma cycle_free_nrm : forall d, commons_ok d -> cycle_free (nrm_d d) = cycle_free d.
+Proof.
+  intros d Hc. unfold cycle_free, indeg0. cbv zeta. rewrite common_names_nrm.
+  rewrite (flat_map_ext _ (deps_of d)) by (intros a; apply deps_nrm; exact Hc). rewrite kahn_nrm by exact Hc. reflexivity.
+Qed.
+
+(* ---- the whole resolution ---- *)
+Definition ok_entity (d : decls) (ns : str) (e : s_entity) : bool :=
+  match se_shape e with Some fs => ok_ty d ns (TyRec fs) | None => true end && match se_tags e with Some t => ok_ty d ns t | None => true end.
+Definition ok_action (d : decls) (ns : str) (a : s_action) : bool :=
+  match sac_applies a with Some ap => match sa_context ap with Some t => ok_ty d ns t | None => true end | None => true end.
+Definition ok_ns (d : decls) (ns : s_ns) : bool :=
+  forallb (ok_entity d (sn_name ns)) (sn_entities ns) && forallb (fun c : str * sty => ok_ty d (sn_name ns) (snd c)) (sn_commons ns)
+  && forallb (ok_action d (sn_name ns)) (sn_actions ns).
+(* the side condition of part 2, on the resolver's view of the schema: in the scope where it occurs, no builtin name
+   (String, Long, Bool, an extension type) is also the name of a declared common or entity type, the extension types are the four
+   known ones, and an EntityTypeRef is not captured by a common type *)
+Definition resolve_same_ok (S : s_schema) : bool := match register S with Some d => forallb (ok_ns d) S | None => true end.
+
+Lemma commons_ok_of : forall S d, register S = Some d -> forallb (ok_ns d) S = true -> commons_ok d.
+Proof.
+  intros S d Hreg Hall p cns ct Hc. apply common_In in Hc.
+  unfold register in Hreg. destruct (existsb _ S); [discriminate|]. injection Hreg as <-. cbn [d_commons] in Hc.
+  apply in_flat_map in Hc. destruct Hc as (ns & Hns & Hc). apply in_map_iff in Hc. destruct Hc as (c & Hc & Hcin). injection Hc as _ <- <-.
+  rewrite forallb_forall in Hall. specialize (Hall ns Hns). unfold ok_ns in Hall. apply andb_true_iff in Hall. destruct Hall as [Hall _].
+  apply andb_true_iff in Hall. destruct Hall as [_ Hall]. rewrite forallb_forall in Hall. exact (Hall c Hcin).
+Qed.
+
+Lemma r_rt_nrm : forall d ns t, commons_ok d -> ok_ty d ns t = true -> r_rt (nrm_d d) ns (nrm t) = r_rt d ns t.
+Proof. intros d ns t Hc Hok. unfold r_rt. rewrite resolve_fuel_nrm. apply rt_nrm; assumption. Qed.
+
+Lemma r_ent_nrm : forall d ns e, commons_ok d -> ok_entity d ns e = true -> r_ent (nrm_d d) ns (nrm_entity e) = r_ent d ns e.
+Proof.
+  intros d ns e Hc Hok. unfold ok_entity in Hok. apply andb_true_iff in Hok. destruct Hok as [Hs Ht].
+  unfold r_ent. cbn [nrm_entity se_parents]. change (r_eref (nrm_d d) ns) with (r_eref d ns).
+  destruct (all_ok (r_eref d ns) (se_parents e)) as [ps| |]; cbn [rbind]; try reflexivity.
+  unfold r_ent_rest. cbn [nrm_entity se_shape se_tags se_name].
+  destruct (se_shape e) as [fs|]; cbn [option_map].
+  - change (TyRec (nrm_fields fs)) with (nrm (TyRec fs)). rewrite (r_rt_nrm d ns _ Hc Hs).
+    destruct (se_tags e) as [t|]; cbn [option_map]; [rewrite (r_rt_nrm d ns _ Hc Ht)|]; reflexivity.
+  - destruct (se_tags e) as [t|]; cbn [option_map]; [rewrite (r_rt_nrm d ns _ Hc Ht)|]; reflexivity.
+Qed.
+
+Lemma r_act_nrm : forall d ns a, commons_ok d -> ok_action d ns a = true -> r_act (nrm_d d) ns (nrm_action a) = r_act d ns a.
+Proof.
+  intros d ns a Hc Hok. unfold ok_action in Hok. unfold r_act. cbn [nrm_action sac_applies sac_parents].
+  change (r_eref (nrm_d d) ns) with (r_eref d ns).
+  destruct (sac_applies a) as [ap|]; cbn [option_map]; [|reflexivity].
+  cbn [nrm_applies sa_principals sa_resources sa_context].
+  destruct (sa_context ap) as [t|]; cbn [option_map]; [rewrite (r_rt_nrm d ns _ Hc Hok)|]; reflexivity.
+Qed.
+
+Lemma all_ok_map_ext : forall (A B : Type) (f f' : A -> rres B) (g : A -> A) l,
+  (forall x, In x l -> f' (g x) = f x) -> all_ok f' (map g l) = all_ok f l.
+Proof.
+  intros A B f f' g l H. induction l as [|x l IH]; [reflexivity|]. cbn [map]. rewrite !all_ok_cons, (H x (or_introl eq_refl)), IH; [reflexivity|].
+  intros y Hy. apply H. right. exact Hy.
+Qed.
+
+Definition same_concat {B} (x y : rres (list (list B))) : Prop :=
+  match x, y with ROk a, ROk b => List.concat a = List.concat b | RErr, RErr => True | RFuel, RFuel => True | _, _ => False end.
+
+Lemma all_ok_nrm_s : forall (B : Type) (f f' : s_ns -> rres (list B)) S,
+  (forall ns, In ns S -> f' (nrm_ns ns) = f ns) -> (forall ns, s_keep ns = false -> f ns = ROk []) ->
+  same_concat (all_ok f' (nrm_s S)) (all_ok f S).
+Proof.
+  intros B f f' S H1 H2. unfold nrm_s. induction S as [|ns S IH]; [reflexivity|]. cbn [filter]. rewrite (all_ok_cons f).
+  assert (IH' := IH (fun x Hx => H1 x (or_intror Hx))). clear IH.
+  destruct (s_keep ns) eqn:Ek.
+  - cbn [map]. rewrite all_ok_cons, (H1 ns (or_introl eq_refl)). destruct (f ns); cbn [rbind same_concat]; try exact I.
+    destruct (all_ok f' (map nrm_ns (filter s_keep S))), (all_ok f S); cbn [rbind same_concat] in *; try tauto.
+    cbn [List.concat]. rewrite IH'. reflexivity.
+  - rewrite (H2 ns Ek). cbn [rbind].
+    destruct (all_ok f' (map nrm_ns (filter s_keep S))), (all_ok f S); cbn [rbind same_concat] in *; try tauto.
+Qed.
+
+Theorem resolve_nrm_s : forall S, resolve_same_ok S = true -> resolve_schema (nrm_s S) = resolve_schema S.
+Proof.
+  intros S Hok. unfold resolve_same_ok in Hok. rewrite !resolve_schema_eq, register_nrm, shadowing_nrm.
+  destruct (register S) as [d|] eqn:Hreg; cbn [option_map]; [|reflexivity].
+  pose proof (commons_ok_of S d Hreg Hok) as Hc. rewrite (cycle_free_nrm d Hc).
+  destruct (negb (shadowing_ok S)); [reflexivity|]. destruct (negb (cycle_free d)); [reflexivity|].
+  rewrite forallb_forall in Hok.
+  pose proof (all_ok_nrm_s _ (fun ns => all_ok (r_ent d (sn_name ns)) (sn_entities ns)) (fun ns => all_ok (r_ent (nrm_d d) (sn_name ns)) (sn_entities ns)) S) as He.
+  pose proof (all_ok_nrm_s _ (fun ns => all_ok (r_act d (sn_name ns)) (sn_actions ns)) (fun ns => all_ok (r_act (nrm_d d) (sn_name ns)) (sn_actions ns)) S) as Ha.
+  assert (He' : same_concat (all_ok (fun ns => all_ok (r_ent (nrm_d d) (sn_name ns)) (sn_entities ns)) (nrm_s S))
+                            (all_ok (fun ns => all_ok (r_ent d (sn_name ns)) (sn_entities ns)) S)).
+  { apply He.
+    - intros ns Hns. cbn [nrm_ns sn_name sn_entities]. apply all_ok_map_ext. intros e Hein. apply r_ent_nrm; [exact Hc|].
+      specialize (Hok ns Hns). unfold ok_ns in Hok. apply andb_true_iff in Hok. destruct Hok as [Hok _]. apply andb_true_iff in Hok. destruct Hok as [Hok _].
+      rewrite forallb_forall in Hok. exact (Hok e Hein).
+    - intros ns E. destruct (s_keep_false ns E) as (_ & -> & _). reflexivity. }
+  assert (Ha' : same_concat (all_ok (fun ns => all_ok (r_act (nrm_d d) (sn_name ns)) (sn_actions ns)) (nrm_s S))
+                            (all_ok (fun ns => all_ok (r_act d (sn_name ns)) (sn_actions ns)) S)).
+  { apply Ha.
+    - intros ns Hns. cbn [nrm_ns sn_name sn_actions]. apply all_ok_map_ext. intros a Hain. apply r_act_nrm; [exact Hc|].
+      specialize (Hok ns Hns). unfold ok_ns in Hok. apply andb_true_iff in Hok. destruct Hok as [_ Hok].
+      rewrite forallb_forall in Hok. exact (Hok a Hain).
+    - intros ns E. destruct (s_keep_false ns E) as (_ & _ & _ & _ & ->). reflexivity. }
+  clear He Ha.
+  destruct (all_ok (fun ns => all_ok (r_ent (nrm_d d) (sn_name ns)) (sn_entities ns)) (nrm_s S)) as [es'| |],
+           (all_ok (fun ns => all_ok (r_ent d (sn_name ns)) (sn_entities ns)) S) as [es| |]; cbn [same_concat] in He'; try tauto;
+  destruct (all_ok (fun ns => all_ok (r_act (nrm_d d) (sn_name ns)) (sn_actions ns)) (nrm_s S)) as [acts'| |],
+           (all_ok (fun ns => all_ok (r_act d (sn_name ns)) (sn_actions ns)) S) as [acts| |]; cbn [same_concat] in Ha'; try tauto; try reflexivity.
+  rewrite He', Ha'. reflexivity.
+Qed.
+
+Theorem resolve_norm_text : forall s, resolve_same_ok (erase s) = true ->
+  resolve_schema (erase (norm_text s)) = resolve_schema (erase s).
+Proof. intros s H. rewrite erase_norm_text. apply resolve_nrm_s. exact H. Qed.
+
+(* finding F26: a declared type named like a builtin captures the bare builtin name of the printed text *)
+Definition f26_schema : x_schema :=
+  [([], {| xs_annots := [];
+           xs_entities := [(s_of "A", {| xe_annots := []; xe_parents := []; xe_shape := Some [(s_of "x", (XString, false, []))]; xe_tags := None |});
+                           (s_of "String", {| xe_annots := []; xe_parents := []; xe_shape := None; xe_tags := None |})];
+           xs_enums := []; xs_commons := []; xs_actions := [] |})].
+Example f26_capture :
+  wf_text f26_schema = true /\ resolve_same_ok (erase f26_schema) = false
+  /\ resolve_schema (erase f26_schema)
+     = VOk {| rs_entities := [(s_of "A", ([], Some [(s_of "x", (RString, false))], None)); (s_of "String", ([], None, None))]; rs_actions := [] |}
+  /\ resolve_schema (erase (norm_text f26_schema))
+     = VOk {| rs_entities := [(s_of "A", ([], Some [(s_of "x", (REnt (s_of "String"), false))], None)); (s_of "String", ([], None, None))]; rs_actions := [] |}.
+Proof. repeat split; vm_compute; reflexivity. Qed.
+
+
+(* ---- a syntactic sufficient condition: no declared type is named like a builtin that the printer writes ---- *)
+Definition printed_builtins : list string := ["String"; "Long"; "Bool"; "ipaddr"; "decimal"; "datetime"; "duration"]%string.
+Definition is_printed_builtin (n : str) : bool := existsb (fun b => str_eqb (s_of b) n) printed_builtins.
+Definition declared_names (n : x_ns) : list str := map fst (xs_entities n) ++ map fst (xs_enums n) ++ map fst (xs_commons n).
+Definition no_builtin_names (s : x_schema) : bool :=
+  forallb (fun kv : str * x_ns => forallb (fun name => negb (is_printed_builtin name)) (declared_names (snd kv))) s.
+(* no EntityTypeRef (the text parser never builds one), and only the four known extension types *)
+Fixpoint plain_ty (t : xty) : bool :=
+  match t with
+  | XString | XLong | XBool | XRef _ => true
+  | XExt n => is_ext n
+  | XEnt _ => false
+  | XSet e => plain_ty e
+  | XRec fs => (fix go (l : xrec) : bool := match l with [] => true | x :: r => plain_ty (fst (fst (snd x))) && go r end) fs
+  end.
+Lemma plain_ty_rec : forall fs, plain_ty (XRec fs) = forallb (fun x : str * xattr => plain_ty (fst (fst (snd x)))) fs.
+Proof. reflexivity. Qed.
+Definition opt_plain (o : option xty) : bool := match o with Some t => plain_ty t | None => true end.
+Definition plain_ns (n : x_ns) : bool :=
+  forallb (fun kv : str * x_entity => opt_plain (option_map XRec (xe_shape (snd kv))) && opt_plain (xe_tags (snd kv))) (xs_entities n)
+  && forallb (fun kv : str * x_common => plain_ty (xc_type (snd kv))) (xs_commons n)
+  && forallb (fun kv : str * x_action => match xac_applies (snd kv) with Some ap => opt_plain (xa_context ap) | None => true end) (xs_actions n).
+Definition plain_schema (s : x_schema) : bool := forallb (fun kv : str * x_ns => plain_ns (snd kv)) s.
+
+Definition colon_free (x : str) : Prop := ~ In 58 x.
+
+Lemma prefix_colon : forall u v p q, colon_free u -> colon_free v -> u ++ 58 :: p = v ++ 58 :: q -> u = v.
+Proof.
+  induction u as [|a u IH]; intros [|b v] p q Hu Hv H; cbn [app] in H.
+  - reflexivity.
+  - injection H as H _. exfalso. apply Hv. left. symmetry. exact H.
+  - injection H as H _. exfalso. apply Hu. left. exact H.
+  - injection H as H1 H2. subst b. f_equal. apply (IH v p q); [intros Hin; apply Hu; right; exact Hin|intros Hin; apply Hv; right; exact Hin|exact H2].
+Qed.
+
+Lemma suffix_colon : forall a b x y, colon_free x -> colon_free y -> a ++ sep ++ x = b ++ sep ++ y -> x = y.
+Proof.
+  intros a b x y Hx Hy H. apply (f_equal (@rev Z)) in H. unfold sep in H. rewrite !rev_app_distr in H. cbn [rev app] in H.
+  rewrite <- !app_assoc in H. cbn [app] in H.
+  assert (E : rev x = rev y).
+  { apply (prefix_colon (rev x) (rev y) (58 :: rev a) (58 :: rev b)); [intros Hin; apply Hx; apply in_rev; exact Hin|intros Hin; apply Hy; apply in_rev; exact Hin|exact H]. }
+  rewrite <- (rev_involutive x), <- (rev_involutive y), E. reflexivity.
+Qed.
+
+Lemma word_colon_free : forall w, word w = true -> colon_free w.
+Proof.
+  intros [|c w] H; [discriminate|]. cbn [word] in H. apply andb_true_iff in H. destruct H as [Hc Hw].
+  assert (Hall : forallb is_ident_continue (c :: w) = true) by (cbn [forallb]; rewrite (ident_start_continue c Hc), Hw; reflexivity).
+  rewrite forallb_forall in Hall. intros Hin. specialize (Hall 58 Hin). discriminate.
+Qed.
+
+Lemma printed_builtin_colon_free : forall r, is_printed_builtin r = true -> colon_free r.
+Proof.
+  intros r H. unfold is_printed_builtin, printed_builtins in H. cbn [existsb] in H.
+  repeat (apply orb_true_iff in H; destruct H as [H|H]); try discriminate; apply str_eqb_eq in H; subst r; intros Hin; cbn in Hin;
+    repeat (destruct Hin as [Hin|Hin]; [discriminate|]); exact Hin.
+Qed.
+
+(* a name that is neither a printed builtin ... *)
+Lemma qualify_not_builtin : forall nsn name ns r, colon_free name -> is_printed_builtin name = false -> is_printed_builtin r = true ->
+  qualify nsn name <> r /\ qualify nsn name <> ns ++ sep ++ r.
+Proof.
+  intros nsn name ns r Hname Hnb Hr. pose proof (printed_builtin_colon_free r Hr) as Hrc.
+  assert (Hne : name <> r) by (intros ->; rewrite Hr in Hnb; discriminate).
+  destruct nsn as [|c nsn]; cbn [qualify]; split.
+  - exact Hne.
+  - intros E. apply Hname. rewrite E. apply in_or_app. right. left. reflexivity.
+  - intros E. apply Hrc. rewrite <- E. apply in_or_app. right. left. reflexivity.
+  - intros E. apply Hne. exact (suffix_colon _ _ _ _ Hname Hrc E).
+Qed.
+
+Lemma decl_origin : forall s d x, register (erase s) = Some d -> is_entity d x = true \/ has_common d x = true ->
+  exists kv name, In kv s /\ In name (declared_names (snd kv)) /\ x = qualify (fst kv) name.
+Proof.
+  intros s d x Hreg H. unfold register in Hreg. destruct (existsb _ (erase s)); [discriminate|]. injection Hreg as <-.
+  unfold is_entity, has_common in H. cbn [d_ents d_enums] in H.
+  assert (Hin : In x (flat_map (fun ns => map (fun e => qualify (sn_name ns) (se_name e)) (sn_entities ns)) (erase s))
+             \/ In x (flat_map (fun ns => map (qualify (sn_name ns)) (sn_enums ns)) (erase s))
+             \/ In x (map fst (flat_map (fun ns => map (fun c : str * sty => (qualify (sn_name ns) (fst c), (sn_name ns, snd c))) (sn_commons ns)) (erase s)))).
+  { destruct H as [H|H].
+    - apply orb_true_iff in H. destruct H as [H|H]; apply mem_In in H; tauto.
+    - right. right. destruct (common _ x) as [c|] eqn:E; [|discriminate]. apply common_In in E. cbn [d_commons] in E.
+      apply in_map_iff. exists (x, c). split; [reflexivity|exact E]. }
+  clear H. unfold erase in Hin. unfold declared_names.
+  destruct Hin as [Hin|[Hin|Hin]].
+  - apply in_flat_map in Hin. destruct Hin as (ns & Hns & Hin). apply in_map_iff in Hns. destruct Hns as (kv & <- & Hkv).
+    apply in_map_iff in Hin. destruct Hin as (e & <- & He). cbn [erase_ns sn_entities sn_name] in *. apply in_map_iff in He. destruct He as (e0 & <- & He0).
+    cbn [se_name]. exists kv, (fst e0). split; [exact Hkv|]. split; [|reflexivity]. apply in_or_app. left. apply in_map. exact He0.
+  - apply in_flat_map in Hin. destruct Hin as (ns & Hns & Hin). apply in_map_iff in Hns. destruct Hns as (kv & <- & Hkv).
+    apply in_map_iff in Hin. destruct Hin as (e & <- & He). cbn [erase_ns sn_enums sn_name] in *.
+    exists kv, e. split; [exact Hkv|]. split; [|reflexivity]. apply in_or_app. right. apply in_or_app. left. exact He.
+  - apply in_map_iff in Hin. destruct Hin as (c & <- & Hin).
+    apply in_flat_map in Hin. destruct Hin as (ns & Hns & Hin). apply in_map_iff in Hns. destruct Hns as (kv & <- & Hkv).
+    apply in_map_iff in Hin. destruct Hin as (c0 & <- & Hc0). cbn [erase_ns sn_commons sn_name fst] in *. apply in_map_iff in Hc0. destruct Hc0 as (c1 & <- & Hc1).
+    cbn [fst]. exists kv, (fst c1). split; [exact Hkv|]. split; [|reflexivity]. apply in_or_app. right. apply in_or_app. right. apply in_map. exact Hc1.
+Qed.
+
+Lemma declared_ident : forall s kv name, wf_text s = true -> In kv s -> In name (declared_names (snd kv)) -> colon_free name.
+Proof.
+  intros s kv name Hwf Hkv Hname. destruct (wf_text_in s kv Hwf Hkv) as (Hn & _). apply wf_ns_t_iff in Hn.
+  destruct Hn as [Han Hes Hesw Hens Hensw Hdj Hcs Hcsw Has Hasw]. unfold declared_names in Hname. rewrite forallb_forall in Hesw, Hensw, Hcsw.
+  assert (Hv : is_valid_ident name = true).
+  { apply in_app_or in Hname. destruct Hname as [Hname|Hname]; [|apply in_app_or in Hname; destruct Hname as [Hname|Hname]];
+      apply in_map_iff in Hname; destruct Hname as (x & <- & Hx).
+    - specialize (Hesw x Hx). apply andb_true_iff in Hesw. tauto.
+    - specialize (Hensw x Hx). apply andb_true_iff in Hensw. tauto.
+    - specialize (Hcsw x Hx). apply andb_true_iff in Hcsw. destruct Hcsw as [Hcsw _]. apply andb_true_iff in Hcsw. tauto. }
+  apply word_colon_free. apply (valid_ident_word name Hv).
+Qed.
+
+Lemma free_builtin : forall s d ns r, wf_text s = true -> no_builtin_names s = true -> register (erase s) = Some d ->
+  is_printed_builtin r = true -> free d ns r = true.
+Proof.
+  intros s d ns r Hwf Hnb Hreg Hr.
+  assert (Hno : forall x, (x = r \/ x = ns ++ sep ++ r) -> is_entity d x = false /\ has_common d x = false).
+  { intros x Hx.
+    assert (H : ~ (is_entity d x = true \/ has_common d x = true)).
+    { intros H. destruct (decl_origin s d x Hreg H) as (kv & name & Hkv & Hname & E).
+      pose proof (declared_ident s kv name Hwf Hkv Hname) as Hcf.
+      unfold no_builtin_names in Hnb. rewrite forallb_forall in Hnb. specialize (Hnb kv Hkv). rewrite forallb_forall in Hnb.
+      specialize (Hnb name Hname). apply negb_true_iff in Hnb.
+      destruct (qualify_not_builtin (fst kv) name ns r Hcf Hnb Hr) as [N1 N2]. destruct Hx as [-> | ->]; [apply N1|apply N2]; symmetry; exact E. }
+    destruct (is_entity d x), (has_common d x); try tauto; exfalso; apply H; tauto. }
+  destruct (Hno r (or_introl eq_refl)) as [E1 C1]. destruct (Hno (ns ++ sep ++ r) (or_intror eq_refl)) as [E2 C2].
+  unfold free. rewrite E1, C1, E2, C2. destruct (is_nil_str ns); reflexivity.
+Qed.
+
+Lemma is_ext_printed : forall n, is_ext n = true -> is_printed_builtin n = true.
+Proof.
+  intros n H. unfold is_ext in H. cbn [existsb] in H.
+  repeat (apply orb_true_iff in H; destruct H as [H|H]); try discriminate; apply str_eqb_eq in H; subst n; reflexivity.
+Qed.
+
+Lemma plain_ok_ty : forall s d ns, wf_text s = true -> no_builtin_names s = true -> register (erase s) = Some d ->
+  forall t, plain_ty t = true -> ok_ty d ns (erase_ty t) = true.
+Proof.
+  intros s d ns Hwf Hnb Hreg. induction t as [| | |n|e IHe|fs IHfs|r|r] using xty_ind'; intros Hp; try discriminate; try reflexivity.
+  - apply (free_builtin s); try assumption; reflexivity.
+  - apply (free_builtin s); try assumption; reflexivity.
+  - apply (free_builtin s); try assumption; reflexivity.
+  - cbn [plain_ty erase_ty ok_ty] in *. rewrite Hp. apply (free_builtin s); try assumption. apply is_ext_printed. exact Hp.
+  - exact (IHe Hp).
+  - rewrite erase_ty_rec, ok_ty_rec. rewrite plain_ty_rec in Hp. unfold erase_fields. rewrite forallb_forall in *.
+    intros x Hx. apply in_map_iff in Hx. destruct Hx as (y & <- & Hy). cbn [fst snd]. rewrite Forall_forall in IHfs. apply (IHfs y Hy). apply Hp. exact Hy.
+Qed.
+
+Theorem resolve_norm_text_names : forall s, wf_text s = true -> no_builtin_names s = true -> plain_schema s = true ->
+  resolve_schema (erase (norm_text s)) = resolve_schema (erase s).
+Proof.
+  intros s Hwf Hnb Hpl. apply resolve_norm_text. unfold resolve_same_ok. destruct (register (erase s)) as [d|] eqn:Hreg; [|reflexivity].
+  unfold erase. apply forallb_forall. intros ns Hns. apply in_map_iff in Hns. destruct Hns as ([name n] & <- & Hkv).
+  unfold plain_schema in Hpl. rewrite forallb_forall in Hpl. specialize (Hpl _ Hkv). cbn [snd] in Hpl. unfold plain_ns in Hpl.
+  apply andb_true_iff in Hpl. destruct Hpl as [Hpl Hpa]. apply andb_true_iff in Hpl. destruct Hpl as [Hpe Hpc].
+  rewrite forallb_forall in Hpe, Hpc, Hpa.
+  pose proof (plain_ok_ty s d name Hwf Hnb Hreg) as Hok.
+  unfold ok_ns, erase_ns. cbn [fst snd sn_name sn_entities sn_commons sn_actions]. repeat (apply andb_true_iff; split); apply forallb_forall; intros x Hx;
+    apply in_map_iff in Hx; destruct Hx as (y & <- & Hy).
+  - specialize (Hpe y Hy). apply andb_true_iff in Hpe. destruct Hpe as [Hs Ht]. unfold ok_entity. cbn [se_shape se_tags].
+    apply andb_true_iff. split.
+    + destruct (xe_shape (snd y)) as [fs|]; [|reflexivity]. cbn [option_map opt_plain] in *. rewrite erase_rec_fields, <- erase_ty_rec. apply Hok. exact Hs.
+    + destruct (xe_tags (snd y)) as [t|]; [|reflexivity]. cbn [option_map opt_plain] in *. apply Hok. exact Ht.
+  - cbn [snd]. apply Hok. apply Hpc. exact Hy.
+  - specialize (Hpa y Hy). unfold ok_action. cbn [sac_applies]. destruct (xac_applies (snd y)) as [ap|]; [|reflexivity]. cbn [option_map sa_context].
+    destruct (xa_context ap) as [t|]; [|reflexivity]. cbn [option_map opt_plain] in *. apply Hok. exact Hpa.
+Qed.
+
+Example f26_names : no_builtin_names f26_schema = false /\ plain_schema f26_schema = true.
+Proof. split; vm_compute; reflexivity. Qed.
+
+Print Assumptions parse_print_schema.
+Print Assumptions norm_text_idempotent.
+Print Assumptions second_text_rendering.
+Print Assumptions wf_text_wf_schema.
+Print Assumptions resolve_norm_text.
+Print Assumptions resolve_norm_text_names.
